@@ -55,8 +55,15 @@ package internal
 //@ field internal.HandlerFuncParams.SwapDBs = sugardb.(*SugarDB).SwapDBs recv $srv
 //@ field internal.HandlerFuncParams.GetClock = sugardb.(*SugarDB).getClock recv $srv
 
-// Key extraction functions only inspect the command.
-//@ functype KeyExtractionFunc props C06
+// Every command handler is entered through a HandlerFunc value (sugardb.handleCommand, raft FSM.Apply) with the decoded,
+// non-empty command: the precondition of every handler, checked where handleCommand makes the call.
+//@ functype HandlerFunc roots props C12
+//@   requires nonempty: len(params.Command) >= 1
+
+// Key extraction functions only inspect the command; they are called (by the handlers and by ACL authorisation) with the
+// decoded, non-empty command.
+//@ functype KeyExtractionFunc roots props C06,C12
+//@   requires nonempty: len(cmd) >= 1
 //@   modifies nothing
 
 // ---- persistence helpers -----------------------------------------------------------------------
@@ -102,7 +109,11 @@ package internal
 // ---- command parsing helpers used by dispatch (frame-only, assumed: they parse and look up, they write nothing) -----
 //@ func Decode trusted props C07
 //@   modifies nothing
-//@ func GetSubCommand trusted props C07
+// A sub-command is only found in a command of at least two words.
+//@ func GetSubCommand props C07,C12
+//@   ensures {C12} found: result1 == nil && result0 != nil ==> len(cmd) >= 2
 //@   modifies nothing
+//@   loop 0
+//@     invariant len(cmd) >= 2
 //@ func IsWriteCommand trusted props C07
 //@   modifies nothing
